@@ -274,8 +274,8 @@ CHECKS["C10"] = {
 
 H_SESSION = {"fn": "vh_catchup_session", "what": "two real objects: a freshly elected leader runs replicateTo against a follower whose transport delivers each AppendEntries to the follower's real appendEntries; "
              "follower log arbitrary (stale suffix, shorter, longer, compacted to its snapshot) related to the leader's only by log matching and leader completeness; runs until caught up",
-             "bounds_quick": "W=2, all entries Command, MaxAppendEntries=1, at most 2W+3 RPCs (checked)", "bounds_thorough": "W=3, Command/Noop, MaxAppendEntries in {1,2}",
-             "covers": ["session.done", "session.fed-fsm"], "opts": {"max_paths": 200000}, "thorough": {"max_paths": 2000000, "max_seconds": 14000}}
+             "bounds_quick": "W=2, all entries Command, MaxAppendEntries=1, at most 2W+3 RPCs (checked)", "bounds_thorough": "W=2, Command/Noop mixes, MaxAppendEntries in {1,2}",
+             "covers": ["session.done", "session.fed-fsm"], "opts": {"max_paths": 200000}, "thorough": {"max_paths": 2000000, "max_seconds": 7000}}
 H_SESSION_THOROUGH = dict(H_SESSION, quick={"skip": True})
 CHECKS["C12"]["harnesses"] += [H_SESSION]
 CHECKS["C02"]["harnesses"] += [H_SESSION_THOROUGH]
@@ -326,3 +326,14 @@ for p in ["C12", "C05", "C01", "C11", "C09"]:
 H_HEARTBEAT = {"fn": "vh_heartbeat", "what": "one round of the heartbeat loop (forced by notifyCh) with an arbitrary follower answer or RPC error", "bounds": "N=2", "covers": ["heartbeat.ack", "heartbeat.nack", "heartbeat.rpc-error"]}
 for p in ["C09", "C13", "C01", "C05"]:
     CHECKS[p]["harnesses"].append(H_HEARTBEAT)
+
+H_PIPELINE = {"fn": "vh_pipeline_decode", "what": "pipelineDecode consuming one pipelined AppendEntries response (arbitrary term/success, 0-2 entries)", "bounds": "N=2", "covers": ["pipeline.success", "pipeline.rejected", "pipeline.stale-term"]}
+H_ELECT = {"fn": "vh_elect_self", "what": "electSelf with every stable-store write failing or not (a failure models a crash at that point): durable invariant and write order", "bounds": "single voter, 3 writes", "covers": ["elect.self-vote-counted", "elect.self-vote-not-counted", "elect.term-write-failed"]}
+H_AE_FAULTS = {"fn": "vh_ae_faults", "what": "appendEntries with failing GetLog/DeleteRange/StoreLogs: a failed write is never acknowledged; the cached last-log position never contradicts the store", "bounds": "W=2, E<=2", "covers": ["aefault.write-failed", "aefault.end"]}
+for p in ["C05", "C01", "C09", "C12"]:
+    CHECKS[p]["harnesses"].append(H_PIPELINE)
+for p in ["C06", "C01"]:
+    CHECKS[p]["harnesses"].append(H_ELECT)
+for p in ["C03", "C04", "C05"]:
+    CHECKS[p]["harnesses"].append(H_AE_FAULTS)
+CHECKS["C02"]["harnesses"].append(H_HEARTBEAT)
